@@ -31,13 +31,13 @@ type Packet struct {
 }
 
 type Node struct {
-	Name    string
-	KeyIdx  int
-	Ch      *p2pke.Channel
-	Accept  func(*x509.PublicKey) bool
-	lab     *Lab
-	Peer    *Node // default destination of this node's packets
-	Gen     int   // incremented on restart
+	Name   string
+	KeyIdx int
+	Ch     *p2pke.Channel
+	Accept func(*x509.PublicKey) bool
+	lab    *Lab
+	Peer   *Node // default destination of this node's packets
+	Gen    int   // incremented on restart
 
 	Received     []string // plaintexts handed to the application
 	ReceivedFrom []string // RemoteKey name at the time of each receipt
@@ -55,17 +55,17 @@ type Timing struct {
 }
 
 type Lab struct {
-	X       *vrt.Exec
-	Cell    hx.Cell
-	Nodes   []*Node
-	Flight  []*Packet // captured, not yet delivered or dropped
-	seq     int
-	Timing  Timing
-	Trace   []string
+	X      *vrt.Exec
+	Cell   hx.Cell
+	Nodes  []*Node
+	Flight []*Packet // captured, not yet delivered or dropped
+	seq    int
+	Timing Timing
+	Trace  []string
 	// GhostDelivered lists packets of a pre-restart incarnation delivered after the restart.
 	GhostDelivered []string
 	cancels        []context.CancelFunc
-	closing bool
+	closing        bool
 }
 
 func New(x *vrt.Exec, t Timing, seed uint64) *Lab {
@@ -218,6 +218,20 @@ func (l *Lab) StartSend(n *Node, payload string) {
 	l.Due()
 }
 
+// SendNow calls Channel.Send in the calling thread (for scenarios that explore the
+// interleavings of concurrent Sends themselves).
+func (l *Lab) SendNow(n *Node, payload string) error {
+	ctx, cf := hx.WithCancel(context.Background())
+	l.cancels = append(l.cancels, cf)
+	n.SendStarted++
+	err := n.Ch.Send(ctx, p2p.IOVec{[]byte(payload)})
+	n.SendReturned++
+	if err == nil {
+		n.SendOK++
+	}
+	return err
+}
+
 // Deliver hands packet p to node to (removing it from flight unless keep is set).
 func (l *Lab) Deliver(p *Packet, to *Node, keep bool) {
 	if !keep {
@@ -296,4 +310,31 @@ func (l *Lab) FairSuffix(horizon time.Duration, done func() bool) (elapsed time.
 		l.Fire()
 	}
 	return l.X.Now - start, done()
+}
+
+// Inject hands adversary-made bytes to node to and returns the packets the node emitted in
+// response (they are taken out of flight: the adversary keeps them).
+func (l *Lab) Inject(to *Node, data []byte, what string) []*Packet {
+	l.logf("inject(%s -> %s)", what, to.Name)
+	before := map[*Packet]bool{}
+	for _, p := range l.Flight {
+		before[p] = true
+	}
+	out, err := to.Ch.Deliver(nil, data)
+	l.Cell.Touch()
+	if err == nil && out != nil {
+		to.Received = append(to.Received, string(out))
+		to.ReceivedFrom = append(to.ReceivedFrom, KeyName(to.Ch.RemoteKey()))
+	}
+	to.noteKey()
+	l.X.Settle()
+	l.Due()
+	var resp []*Packet
+	for _, p := range append([]*Packet{}, l.Flight...) {
+		if !before[p] && p.From == to {
+			resp = append(resp, p)
+			l.remove(p)
+		}
+	}
+	return resp
 }
